@@ -716,6 +716,9 @@ class Worker:
         data_dq_before = _wlist(getattr(ds.obj, "disqualification", None))
         data_w_before = _wlist(getattr(ds.obj, "warnings", None))
         kw = {} if fam == "caltrack" else {"ignore_disqualification": ignore}
+        pargs = ()
+        if a.get("pos") and fam != "caltrack":
+            kw, pargs = {}, (ignore,)     # fit(data, ignore) positionally
         ab = a.get("abort")
         out = {"facts": facts, "rid": C.rid(ds.recipe), "data_digest": D.combine(before)}
         sig, nt = self._presig("FIT")
@@ -724,7 +727,7 @@ class Worker:
         if ab and fam != "caltrack":
             return self._fit_aborted(a, ds, model, kw, ab, before, out)
         try:
-            self._call(lambda: model.fit(ds.obj, **kw))
+            self._call(lambda: model.fit(ds.obj, *pargs, **kw))
         except Exception as e:  # noqa: BLE001
             out["class"] = _cls(e)
             out["error"] = str(e)[:200]
@@ -807,9 +810,14 @@ class Worker:
         f["has_ghi"] = "ghi" in cols
         return f
 
-    def _do_predict(self, obj, fam, data_obj, ignore, agg):
+    def _do_predict(self, obj, fam, data_obj, ignore, agg, pos=False):
         if fam == "caltrack":
             return obj.predict(data_obj)
+        if pos:
+            # the documented parameter order, passed positionally
+            if fam == "billing":
+                return obj.predict(data_obj, agg, ignore)
+            return obj.predict(data_obj, ignore)
         if fam == "billing":
             return obj.predict(data_obj, aggregation=agg, ignore_disqualification=ignore)
         return obj.predict(data_obj, ignore_disqualification=ignore)
@@ -874,7 +882,7 @@ class Worker:
                 res = None
         else:
             try:
-                res = self._call(lambda: self._do_predict(slot.obj, slot.fam, ds.obj, ignore, agg))
+                res = self._call(lambda: self._do_predict(slot.obj, slot.fam, ds.obj, ignore, agg, bool(a.get("pos"))))
                 out["class"] = "returned"
             except Exception as e:  # noqa: BLE001
                 out["class"] = _cls(e)
@@ -1056,6 +1064,40 @@ class Worker:
         sig["fam"], sig["profile"] = fam, profile
         return {"class": "done", "fam": fam, "profile": profile, "entries": n, "points": len(ks), "fired": fired,
                 "data_altered": changed, "presig": sig, "nontrivial": True, "abort": {"fired": fired > 0, "sweep": True}}
+
+    def op_PREDICT_GRID(self, a, store):
+        """Daily/billing: predict on a temperature sweep from -60 to 140 F that also contains, for every sub-model of
+        the model's own document, the exact balance points and segment limits (and their float neighbours)."""
+        import numpy as np
+
+        slot = self.models.get(a["m"])
+        if slot is None or not slot.fitted or slot.fam not in ("daily", "billing"):
+            return {"class": "skipped"}
+        dg, txt, mode = self.model_state(slot.obj)
+        if txt is None:
+            return {"class": "skipped"}
+        temps = list(np.arange(-60.0, 140.5, 0.5))
+        try:
+            doc = json.loads(txt)
+            for sm in doc["submodels"].values():
+                co, tc = sm["coefficients"], sm["temperature_constraints"]
+                for v in (co.get("hdd_bp"), co.get("cdd_bp"), tc.get("T_min"), tc.get("T_max"), tc.get("T_min_seg"),
+                          tc.get("T_max_seg")):
+                    if isinstance(v, (int, float)) and v == v and abs(v) < 1e4:
+                        temps.extend([float(v), float(np.nextafter(v, -np.inf)), float(np.nextafter(v, np.inf))])
+        except Exception:  # noqa: BLE001
+            pass
+        tz = str(getattr(slot.obj, "baseline_timezone", None) or "UTC")
+        recipe = {"fam": P.FAMILIES[slot.fam][1], "role": "reporting", "span": "grid", "tz": tz, "obs": "present",
+                  "temps": [float(t) for t in temps], "mid": (slot.base_recipe or {}).get("mid", 0)}
+        dslot = a.get("d", 5)
+        mk = self.op_MAKE_DATA({"d": dslot, "recipe": recipe}, store)
+        if mk.get("class") != "returned":
+            return {"class": "skipped", "why": mk.get("class")}
+        out = self.op_PREDICT({"m": a["m"], "d": dslot, "ignore": True}, store)
+        out["grid_points"] = len(temps)
+        self.probe("grid_predictions")
+        return out
 
     def op_PREDICT_PAIR(self, a, store):
         """C05: two twins of the model's *current* state, reporting sets differing only in `observed`."""
